@@ -93,7 +93,7 @@ pub struct Workload {
     pub work_limit: u64,
 }
 
-pub const FAILERS: [&str; 9] = [
+pub const FAILERS: [&str; 11] = [
     "(mod (X) (+ X 1",
     "(mod (X) (include *standard-cl-23*) (include no-such-file-anywhere.clib) X)",
     "(mod (X) (include *standard-cl-21*) (defun f) X)",
@@ -103,6 +103,10 @@ pub const FAILERS: [&str; 9] = [
     "(mod (X) (include *standard-cl-23*) (defconst C (x 1)) (+ X C))",
     "(mod (X) (include *standard-cl-23.1*) (defun f (A) (let ((q 0x0000)) (+ A q unbound_zz))) (f X))",
     "(mod (X) (include *standard-cl-21*) (defun f (A) (let ((q 0)) (+ A q))) (f X) extra-form)",
+    // an include file that is empty: the preprocessor indexes into an empty parse (a panic,
+    // which a host catches with catch_unwind) - "an earlier compilation failed" by unwinding
+    "(mod (X) (include *standard-cl-23*) (include empty.clib) (+ X 1))",
+    "(mod (X) (include *standard-cl-21*) (defun f (A) (+ A 1)) (include empty.clib) (f X))",
 ];
 
 /// Hand-written programs that are known to be sensitive detectors: their bytes or symbols
@@ -437,7 +441,7 @@ fn run_compile_op(
                             let _ = compile_text(
                                 FAILERS[f % FAILERS.len()],
                                 "failing.clsp",
-                                &[],
+                                &["r/fail".to_string()],
                                 true,
                                 &mut a2,
                                 &mut s2,
@@ -452,18 +456,33 @@ fn run_compile_op(
     // a program marked for the command line front end is always compiled through it (the
     // reference too), so the re-entry hook, which needs a CompilerOpts, does not apply to it
     let cli = prog.cli;
+    // include files of a generated program are (re)written just before it is compiled, into
+    // a directory that belongs to this thread: two programs that use the same include names
+    // with different contents then change the contents found at one fixed path between
+    // compilations (as an editor and a long-lived host would), without threads racing
+    let search: Vec<String> = if prog.files.is_empty() {
+        prog.search.clone()
+    } else {
+        let _g = seam::HarnessGuard::new();
+        let dir = format!("r/inc/t{}{}", actor.id, if nested { "n" } else { "" });
+        let _ = std::fs::create_dir_all(&dir);
+        for (name, content) in prog.files.iter() {
+            let _ = std::fs::write(format!("{}/{}", dir, name), content);
+        }
+        vec![dir]
+    };
     let c = if cli {
         let path = if prog.corpus {
             prog.name.clone()
         } else {
-            format!("r/src/{}", prog.name)
+            format!("r/src/{}/{}", p, prog.name)
         };
-        compile_cli(&path, &prog.search, prog.ops_version)
+        compile_cli(&path, &search, prog.ops_version)
     } else {
         compile_text_v(
             &prog.text,
             &prog.name,
-            &prog.search,
+            &search,
             prog.with_opts,
             prog.ops_version,
             allocator,
@@ -501,7 +520,7 @@ fn thread_body(progs: Arc<Vec<Prog>>, t: ThreadSpec) -> Box<dyn FnOnce(&Actor) +
                     let c = compile_text(
                         FAILERS[*f % FAILERS.len()],
                         "failing.clsp",
-                        &[],
+                        &["r/fail".to_string()],
                         true,
                         &mut a,
                         &mut s,
@@ -604,6 +623,8 @@ pub fn generate(rng: &mut Rng, thorough: bool) -> Workload {
     let corp = corpus();
     // one run in eight is built around a classic program and its near twin
     let classic_twin_run = rng.chance(1, 8);
+    // in one run out of three every generated program has the same file name
+    let same_name_run = rng.chance(1, 3);
     let max_corpus_len: u64 = if thorough { 1 << 20 } else { 2500 };
     for i in 0..k {
         let use_corpus = !(classic_twin_run && i == 0)
@@ -684,7 +705,7 @@ pub fn generate(rng: &mut Rng, thorough: bool) -> Workload {
                             buckets[b].push(it.clone());
                             if !placed[b] {
                                 placed[b] = true;
-                                let name = format!("lib{}_{}.clib", i, b);
+                                let name = format!("lib{}.clib", b);
                                 new_items.push(gen_prog::Sx::List(vec![
                                     gen_prog::Sx::Atom("include".to_string()),
                                     gen_prog::Sx::Atom(if rng.chance(1, 3) {
@@ -703,7 +724,7 @@ pub fn generate(rng: &mut Rng, thorough: bool) -> Workload {
                         for (b, forms) in buckets.into_iter().enumerate() {
                             if placed[b] {
                                 files.push((
-                                    format!("lib{}_{}.clib", i, b),
+                                    format!("lib{}.clib", b),
                                     gen_prog::print(&gen_prog::Sx::List(forms)),
                                 ));
                             }
@@ -714,7 +735,7 @@ pub fn generate(rng: &mut Rng, thorough: bool) -> Workload {
             }
         }
         progs.push(Prog {
-            name: format!("p{}.clsp", i),
+            name: if same_name_run { "main.clsp".to_string() } else { format!("p{}.clsp", i) },
             text,
             search,
             with_opts: rng.chance(1, 2),
@@ -788,6 +809,42 @@ pub fn generate(rng: &mut Rng, thorough: bool) -> Workload {
             }
         }
     }
+    // an include-edit twin: the same program text, one of its include files edited (same
+    // name, same path, other contents) - what an editor does between two builds
+    let mut include_pair: Option<(usize, usize)> = None;
+    if progs.len() < 5 && rng.chance(1, 3) {
+        let cands: Vec<usize> = (0..progs.len())
+            .filter(|i| !progs[*i].files.is_empty())
+            .collect();
+        if !cands.is_empty() {
+            let src = *rng.pick(&cands);
+            let mut twin = progs[src].clone();
+            let fi = rng.below(twin.files.len() as u64) as usize;
+            let edited = match gen_prog::near_twin(&twin.files[fi].1, rng) {
+                Some(t) => Some(t),
+                None => {
+                    // change the first number in the file
+                    let t = &twin.files[fi].1;
+                    t.find(|c: char| c.is_ascii_digit()).map(|ix| {
+                        let mut u = t.clone();
+                        u.replace_range(ix..ix + 1, "7");
+                        if u == *t {
+                            u.replace_range(ix..ix + 1, "3");
+                        }
+                        u
+                    })
+                }
+            };
+            if let Some(e) = edited {
+                if e != twin.files[fi].1 {
+                    twin.files[fi].1 = e;
+                    twin.name = format!("edited{}.clsp", src);
+                    progs.push(twin);
+                    include_pair = Some((progs.len() - 1, src));
+                }
+            }
+        }
+    }
     // one run in eight goes through the command line front end only
     if rng.chance(1, 8) {
         for p in progs.iter_mut() {
@@ -845,7 +902,11 @@ pub fn generate(rng: &mut Rng, thorough: bool) -> Workload {
         });
     }
     // the twin and its original back to back on one thread, in either order
-    for (tw, src) in twin_pair.into_iter().chain(dialect_pair.into_iter()) {
+    for (tw, src) in twin_pair
+        .into_iter()
+        .chain(dialect_pair.into_iter())
+        .chain(include_pair.into_iter())
+    {
         let (a, b) = if rng.chance(1, 2) { (tw, src) } else { (src, tw) };
         let t = rng.below(threads.len() as u64) as usize;
         let at = rng.below(threads[t].ops.len() as u64 + 1) as usize;
@@ -854,6 +915,22 @@ pub fn generate(rng: &mut Rng, thorough: bool) -> Workload {
                 at + k,
                 OpSpec {
                     kind: OpK::Compile(*p),
+                    ambient: None,
+                    reenter: None,
+                },
+            );
+        }
+        // ... sometimes after a compilation that failed (by error or by unwinding)
+        if rng.chance(1, 2) {
+            threads[t].ops.insert(
+                at,
+                OpSpec {
+                    // half of the time one of the failures that unwind (the last two)
+                    kind: OpK::Fail(if rng.chance(1, 2) {
+                        FAILERS.len() - 1 - rng.below(2) as usize
+                    } else {
+                        rng.below(FAILERS.len() as u64) as usize
+                    }),
                     ambient: None,
                     reenter: None,
                 },
@@ -1137,11 +1214,13 @@ pub fn run_one(w: &Workload, tape: &mut Tape, entropy_seed: u64) -> Result<RunRe
     let progs = Arc::new(w.progs.clone());
     // include files of generated programs live in the sandbox
     let _ = std::fs::remove_dir_all("r");
+    let _ = std::fs::create_dir_all("r/fail");
+    let _ = std::fs::write("r/fail/empty.clib", b"");
     for (i, p) in w.progs.iter().enumerate() {
         let _ = i;
         if p.cli && !p.corpus {
-            let _ = std::fs::create_dir_all("r/src");
-            let _ = std::fs::write(format!("r/src/{}", p.name), &p.text);
+            let _ = std::fs::create_dir_all(format!("r/src/{}", i));
+            let _ = std::fs::write(format!("r/src/{}/{}", i, p.name), &p.text);
         }
         for (name, content) in p.files.iter() {
             for dir in p.search.iter().filter(|d| d.starts_with("r/")) {
